@@ -608,6 +608,18 @@ func TestC05Enum(t *testing.T) {
 
 func TestC05Regress(t *testing.T) {
 	for _, s := range loadSaved(t, "C05") {
+		var probe struct {
+			Overlap bool `json:"overlap"`
+			A       int  `json:"size_a"`
+			B       int  `json:"size_b"`
+			Seg     bool `json:"a_segmented"`
+			Held    bool `json:"a_held"`
+		}
+		mustUnmarshal(t, s, &probe)
+		if probe.Overlap {
+			runOverlap(t, "C05", probe.A, probe.B, probe.Seg, probe.Held)
+			continue
+		}
 		var c c05Case
 		mustUnmarshal(t, s, &c)
 		runC05(t, c)
